@@ -24,10 +24,16 @@ type gateReader struct {
 	permit chan struct{} // one token per chunk (or the end of input) the controller lets through
 	open   atomic.Bool   // gates opened for good (unsteered / end of schedule)
 	next   int
+	mid    bool
+	// gateEOF: the end of input is a step of its own (C13); otherwise it follows the last piece at once (C20)
+	gateEOF bool
 }
 
 func (g *gateReader) Read(p []byte) (int, error) {
-	if !g.open.Load() {
+	if g.next >= len(g.chunks) && !g.gateEOF {
+		return 0, io.EOF
+	}
+	if !g.mid && !g.open.Load() {
 		select {
 		case g.asked <- struct{}{}:
 		default:
@@ -41,8 +47,10 @@ func (g *gateReader) Read(p []byte) (int, error) {
 	n := copy(p, c)
 	if n < len(c) {
 		g.chunks[g.next] = c[n:]
+		g.mid = true // the rest of this piece follows without a gate
 	} else {
 		g.next++
+		g.mid = false
 	}
 	return n, nil
 }
@@ -54,11 +62,30 @@ func (g *gateReader) release() {
 	}
 }
 
-var c13dSteered, c13dUnsteered atomic.Int64
-
 const softWait = 500 * time.Millisecond
 
+// steerStats: when an implementation plainly does not follow the schedules (none of the first cases could be
+// steered) the remaining cases stop waiting for it - they are judged on their outcome all the same
+type steerStats struct{ steered, unsteered atomic.Int64 }
+
+func (s *steerStats) wait() time.Duration {
+	if s.steered.Load() == 0 && s.unsteered.Load() >= 16 {
+		return 5 * time.Millisecond
+	}
+	return softWait
+}
+func (s *steerStats) note(ok bool) {
+	if ok {
+		s.steered.Add(1)
+	} else {
+		s.unsteered.Add(1)
+	}
+}
+
+var c13dStats, c20dStats, c09dStats steerStats
+
 func c13dReplay(c json.RawMessage) Verdict {
+	softWait := c13dStats.wait()
 	var cs struct {
 		Lines []string
 		Cap   int
@@ -74,7 +101,7 @@ func c13dReplay(c json.RawMessage) Verdict {
 	if cs.Records == nil {
 		cs.Records = []fastaRec{}
 	}
-	g := &gateReader{asked: make(chan struct{}, 4), permit: make(chan struct{}, len(cs.Lines)+8)}
+	g := &gateReader{gateEOF: true, asked: make(chan struct{}, 4), permit: make(chan struct{}, len(cs.Lines)+8)}
 	for _, l := range cs.Lines {
 		g.chunks = append(g.chunks, []byte(l+"\n"))
 	}
@@ -163,11 +190,7 @@ func c13dReplay(c json.RawMessage) Verdict {
 			}
 		}
 	}
-	if steered {
-		c13dSteered.Add(1)
-	} else {
-		c13dUnsteered.Add(1)
-	}
+	c13dStats.note(steered)
 	g.release()
 	// whatever is left: drain to the close under a generous deadline
 	for closes == 0 {
@@ -204,6 +227,6 @@ func opsOf(s []struct {
 
 func init() {
 	registry["C13D"] = &Prop{Replay: c13dReplay, Finish: func() {
-		fmt.Fprintf(os.Stderr, "C13 directed schedules: %d followed step by step, %d unsteered (judged on the outcome only)\n", c13dSteered.Load(), c13dUnsteered.Load())
+		fmt.Fprintf(os.Stderr, "C13 directed schedules: %d followed step by step, %d unsteered (judged on the outcome only)\n", c13dStats.steered.Load(), c13dStats.unsteered.Load())
 	}}
 }
